@@ -8,7 +8,14 @@
 (*      f1 being the function handed to malt.convert, every further link   *)
 (*      one of  conv  (plain user function: converted recursively),        *)
 (*              dnc   (decorated with do_not_convert),                     *)
-(*              allow (lives in an allow-listed module);                   *)
+(*              allow (lives in an allow-listed module),                   *)
+(*              nested (defined by a `def` inside the body of its caller:  *)
+(*                     converted together with it - one conversion unit,   *)
+(*                     one generated module, one source map);              *)
+(*      every function may start with a prelude of scope-opening           *)
+(*      statements that are not on the call path (a lambda stored in a     *)
+(*      variable, a local def, a local def containing a lambda; each is    *)
+(*      called once, successfully);                                        *)
 (*      each function is a straight nest of compound statements (if body,  *)
 (*      else branch, for, while, with, try body, finally body; one         *)
 (*      statement per source line) around one statement: the call of the   *)
@@ -21,6 +28,11 @@
 (*      user module), G1..G4 (generated module of fi), API (malt/impl/     *)
 (*      api.py, the `converter_filename`), INT (other malt internals);     *)
 (*      the source map of fi as a set of entries generated line -> origin; *)
+(*      the origin's function name comes from the transcription of         *)
+(*      OriginResolver.visit (actions ResolveDef / ResolveStmt /           *)
+(*      ResolveLambda / ResolveEnd: a stack of function names, pushed on   *)
+(*      entering a FunctionDef, popped on leaving it), run over the        *)
+(*      statements of every conversion unit in textual order;              *)
 (*  (d) the error rewriting, transcribed action for action:                *)
 (*        Catch        converted_call `except Exception` +                 *)
 (*                     _attach_error_metadata (cause_tb = extract_tb[1:])  *)
@@ -47,13 +59,16 @@ CONSTANTS Mode,            \* "scenario" | "frames"
           MaxNestCaller, CallerCtxs,
           MinNestInner, MaxNestInner, InnerCtxs,
           Tails, Links,
+          Pres, MaxPre,    \* prelude kinds allowed (subset of {"lam", "def", "deflam"}), max prelude items per function
+          Ks,              \* failing statement positions enumerated (subset of 1..7)
           PreU, PreA,      \* number of preamble lines of the two rendered files
           MaxFrames
 
-VARIABLES pc, chain, nest, tail, k, prior,   \* the scenario
+VARIABLES pc, chain, nest, pre, tail, k, prior,   \* the scenario
+          evs, ridx, fstack, names,          \* OriginResolver: nodes to visit, position, function-name stack, (file, line) -> name
           lvl, tb, map, j, res,              \* one run of the scan
           meta, scans, out
-vars == <<pc, chain, nest, tail, k, prior, lvl, tb, map, j, res, meta, scans, out>>
+vars == <<pc, chain, nest, pre, tail, k, prior, evs, ridx, fstack, names, lvl, tb, map, j, res, meta, scans, out>>
 
 Ctxs == {"if", "else", "for", "while", "with", "try", "fin"}
 FnNames == <<"f1", "f2", "f3", "f4">>
@@ -76,18 +91,34 @@ SumBefore(s) == IF s = <<>> THEN 0 ELSE Before(Head(s)) + SumBefore(Tail(s))
 SumAfter(s)  == IF s = <<>> THEN 0 ELSE After(Head(s)) + SumAfter(Tail(s))
 
 N == Len(chain)
-Eff(i) == \A q \in 1..i : chain[q] = "conv"          \* fi runs converted
-FileOf(i) == IF chain[i] = "allow" THEN "A" ELSE "U"
+Nested(i) == chain[i] = "nested"                     \* fi is a `def` inside the body of f(i-1)
+HasChild(i) == i < N /\ Nested(i + 1)
+RECURSIVE Unit(_), FileOf(_)
+Unit(i) == IF Nested(i) THEN Unit(i - 1) ELSE i      \* the separately converted function fi is converted with
+Eff(i) == \A q \in 1..i : chain[q] \in {"conv", "nested"}   \* fi runs converted
+FileOf(i) == IF Nested(i) THEN FileOf(i - 1) ELSE IF chain[i] = "allow" THEN "A" ELSE "U"
 Dec(i) == IF chain[i] = "dnc" THEN 1 ELSE 0           \* decorator line
 FailOnHdr == tail = "hdr" /\ k = 7
-FLen(i) == Dec(i) + 2 + SumBefore(nest[i]) + (IF i = N THEN 7 ELSE 1) + SumAfter(nest[i])
+(* prelude items: lam     g = lambda z: ..  /  r = r + g(..)                                  *)
+(*                def     def h(z):  /  return ..  /  r = r + h(..)                           *)
+(*                deflam  def h(z):  /  w = lambda y: ..  /  return w(z)  /  r = r + h(..)    *)
+PreLen(kd) == CASE kd = "lam" -> 2 [] kd = "def" -> 3 [] kd = "deflam" -> 4
+RECURSIVE SumPre(_)
+SumPre(s) == IF s = <<>> THEN 0 ELSE PreLen(Head(s)) + SumPre(Tail(s))
+RECURSIVE FLen(_)
+FLen(i) == Dec(i) + 2 + SumPre(pre[i]) + (IF HasChild(i) THEN FLen(i + 1) ELSE 0)
+           + SumBefore(nest[i]) + (IF i = N THEN 7 ELSE 1) + SumAfter(nest[i])
            + (IF i = N /\ tail = "hdr" THEN 2 ELSE 0) + 1
 RECURSIVE LinesBefore(_, _)
-LinesBefore(i, q) == IF q = 0 THEN 0
-                     ELSE (IF FileOf(q) = FileOf(i) THEN FLen(q) ELSE 0) + LinesBefore(i, q - 1)
-Start(i)     == (IF FileOf(i) = "A" THEN PreA ELSE PreU) + 1 + LinesBefore(i, i - 1)
+LinesBefore(i, q) == IF q = 0 THEN 0          \* lines of the module-level functions before fi in fi's file
+                     ELSE (IF FileOf(q) = FileOf(i) /\ ~Nested(q) THEN FLen(q) ELSE 0) + LinesBefore(i, q - 1)
+RECURSIVE Start(_)
 DefLine(i)   == Start(i) + Dec(i)
-NestStart(i) == DefLine(i) + 2
+PreStart(i)  == DefLine(i) + 2                                   \* def line, one filler statement, then the prelude
+Start(i)     == IF Nested(i) THEN PreStart(i - 1) + SumPre(pre[i - 1])        \* the nested def follows the prelude
+                ELSE (IF FileOf(i) = "A" THEN PreA ELSE PreU) + 1 + LinesBefore(i, i - 1)
+NestStart(i) == PreStart(i) + SumPre(pre[i]) + (IF HasChild(i) THEN FLen(i + 1) ELSE 0)
+RetLine(i)   == Start(i) + FLen(i) - 1                           \* the function's last line: `return ..`
 HdrLine(i, q) == NestStart(i) + SumBefore(SubSeq(nest[i], 1, q - 1)) + HdrOff(nest[i][q])
 BodyStart(i) == NestStart(i) + SumBefore(nest[i])
 StmtLine(i)  == IF i < N THEN BodyStart(i)
@@ -95,6 +126,41 @@ StmtLine(i)  == IF i < N THEN BodyStart(i)
                 ELSE BodyStart(i) + k - 1
 PathCtx(i)   == IF i = N /\ FailOnHdr THEN <<>> ELSE nest[i]
 
+(* ------------------------------------------------------------------------ *)
+(* Scopes.  What OriginResolver walks: the statements of a conversion unit  *)
+(* in textual order as events  def (a FunctionDef is entered: its own line  *)
+(* is visited inside), stmt, lambda (a Lambda expression inside the         *)
+(* statement visited last), end (the FunctionDef is left).  Listed: def     *)
+(* lines, the first statement, prelude statements, compound headers, the    *)
+(* call / the block of candidate statements, the final return.              *)
+(* ------------------------------------------------------------------------ *)
+PNames == <<"h1", "h2", "h3", "h4">>
+Ev(e, n, l) == [e |-> e, name |-> n, line |-> l]
+PreEv(kd, q, l) == CASE kd = "lam"    -> << Ev("stmt", "", l), Ev("lambda", "", l), Ev("stmt", "", l + 1) >>
+                     [] kd = "def"    -> << Ev("def", PNames[q], l), Ev("stmt", "", l + 1), Ev("end", "", 0),
+                                            Ev("stmt", "", l + 2) >>
+                     [] kd = "deflam" -> << Ev("def", PNames[q], l), Ev("stmt", "", l + 1), Ev("lambda", "", l + 1),
+                                            Ev("stmt", "", l + 2), Ev("end", "", 0), Ev("stmt", "", l + 3) >>
+RECURSIVE PreEvs(_, _)
+PreEvs(i, q) == IF q > Len(pre[i]) THEN <<>>
+                ELSE PreEv(pre[i][q], q, PreStart(i) + SumPre(SubSeq(pre[i], 1, q - 1))) \o PreEvs(i, q + 1)
+RECURSIVE FnEvents(_)
+FnEvents(i) == << Ev("def", FnNames[i], DefLine(i)), Ev("stmt", "", DefLine(i) + 1) >>
+               \o PreEvs(i, 1)
+               \o (IF HasChild(i) THEN FnEvents(i + 1) ELSE <<>>)
+               \o [q \in 1..Len(nest[i]) |-> Ev("stmt", "", HdrLine(i, q))]
+               \o (IF i < N THEN << Ev("stmt", "", BodyStart(i)) >>
+                   ELSE [q \in 1..7 |-> Ev("stmt", "", BodyStart(i) + q - 1)]
+                        \o (IF tail = "hdr" THEN << Ev("stmt", "", BodyStart(i) + 7 + SumAfter(nest[i])) >> ELSE <<>>))
+               \o << Ev("stmt", "", RetLine(i)), Ev("end", "", 0) >>
+RECURSIVE EventsFrom(_)
+(* the conversion units that are really converted, one after the other *)
+EventsFrom(i) == IF i > N THEN <<>>
+                 ELSE (IF Eff(i) /\ ~Nested(i)
+                       THEN LET fe == FnEvents(i) fl == FileOf(i) IN
+                            [x \in 1..Len(fe) |-> [e |-> fe[x].e, name |-> fe[x].name, line |-> fe[x].line, file |-> fl]]
+                       ELSE <<>>) \o EventsFrom(i + 1)
+Events == EventsFrom(1)
 (* ------------------------------------------------------------------------ *)
 (* Failure kinds                                                            *)
 (*   init: "exc" = type.__init__ is Exception.__init__ (plain subclass),    *)
@@ -125,15 +191,18 @@ Orig == [i \in 1..N |-> Fr(FileOf(i), FnNames[i], StmtLine(i))]   \* user frames
 RECURSIVE GFrames(_, _, _)
 (* frames of converted fi from nest position q on; name = function the frame is in *)
 GFrames(i, q, name) ==
-  IF q > Len(PathCtx(i)) THEN << Fr(GFiles[i], name, GLine(StmtLine(i))) >>
+  IF q > Len(PathCtx(i)) THEN << Fr(GFiles[Unit(i)], name, GLine(StmtLine(i))) >>
   ELSE LET c == PathCtx(i)[q] IN
        IF Lowered(c)
-       THEN << Fr(GFiles[i], name, GLine(HdrLine(i, q))),
+       THEN << Fr(GFiles[Unit(i)], name, GLine(HdrLine(i, q))),
                Fr("INT", OpFn(c), 0), Fr("INT", "_py_" \o OpFn(c), 0) >> \o GFrames(i, q + 1, BodyFn(c))
        ELSE GFrames(i, q + 1, name)
-Seg(i) == IF Eff(i) THEN GFrames(i, 1, "ag__fn") ELSE << Fr(FileOf(i), FnNames[i], StmtLine(i)) >>
+Seg(i) == IF Eff(i) THEN GFrames(i, 1, IF Nested(i) THEN FnNames[i] ELSE "ag__fn")
+          ELSE << Fr(FileOf(i), FnNames[i], StmtLine(i)) >>
 Link(i) == LET w == IF chain[i + 1] = "dnc" THEN << Fr("API", "wrapper", 0) >> ELSE <<>> IN
-           IF Eff(i) /\ Eff(i + 1) THEN << Fr("API", "converted_call", 0) >>
+           IF Nested(i + 1)          \* a local def of generated code is an autograph artifact: called as it is
+           THEN (IF Eff(i) THEN << Fr("API", "converted_call", 0), Fr("API", "_call_unconverted", 0) >> ELSE <<>>)
+           ELSE IF Eff(i) /\ Eff(i + 1) THEN << Fr("API", "converted_call", 0) >>
            ELSE IF Eff(i) THEN << Fr("API", "converted_call", 0), Fr("API", "_call_unconverted", 0) >> \o w
            ELSE w
 Below == IF Eff(N) /\ ViaOverload
@@ -143,8 +212,10 @@ RECURSIVE TbFrom(_)
 TbFrom(i) == Seg(i) \o (IF i < N THEN Link(i) \o TbFrom(i + 1) ELSE Below)
 (* source map of fi restricted to the generated lines that can be on a traceback *)
 StmtLines(i) == {StmtLine(i)} \cup {HdrLine(i, q) : q \in {x \in 1..Len(PathCtx(i)) : Lowered(PathCtx(i)[x])}}
-MapOf(i) == {[gfile |-> GFiles[i], gline |-> GLine(l), file |-> FileOf(i), fn |-> FnNames[i], line |-> l] :
-               l \in StmtLines(i)}
+NameOf(f, l) == (CHOOSE e \in names : e.file = f /\ e.line = l).fn     \* as OriginResolver attached it
+(* the source map of the conversion unit of (module-level) fi: its own statements and those of the defs nested in it *)
+MapOf(i) == UNION {{[gfile |-> GFiles[i], gline |-> GLine(l), file |-> FileOf(q), fn |-> NameOf(FileOf(q), l), line |-> l] :
+                      l \in StmtLines(q)} : q \in {x \in i..N : Unit(x) = i}}
 RECURSIVE LastEff(_)
 LastEff(i) == IF i < N /\ Eff(i + 1) THEN LastEff(i + 1) ELSE i
 
@@ -163,7 +234,8 @@ FramesMap == {[gfile |-> "G1", gline |-> GLine(p), file |-> "U", fn |-> "orig", 
 NoMeta == [set |-> FALSE, stack |-> <<>>, name |-> "", text |-> ""]
 NoOut  == [type |-> "", name |-> "", text |-> "", stack |-> <<>>]
 
-Init == /\ chain = <<"conv">> /\ nest = << <<>> >> /\ tail = "UE" /\ k = 1 /\ prior = FALSE
+Init == /\ chain = <<"conv">> /\ nest = << <<>> >> /\ pre = << <<>> >> /\ tail = "UE" /\ k = 1 /\ prior = FALSE
+        /\ evs = <<>> /\ ridx = 1 /\ fstack = <<>> /\ names = {}
         /\ lvl = 0 /\ j = 0 /\ res = <<>> /\ meta = NoMeta /\ scans = <<>> /\ out = NoOut
         /\ IF Mode = "frames"
            THEN \E s \in FrameSeqs : /\ tb = [p \in 1..Len(s) |-> ClassFrame(s[p], p)]
@@ -176,51 +248,85 @@ AddCtx(c) == /\ pc = "build"
              /\ \/ Len(nest[N]) < MaxNestCaller                       \* fN may still become a caller
                 \/ N >= MinChain /\ Len(nest[N]) < MaxNestInner      \* or the innermost function
              /\ nest' = [nest EXCEPT ![N] = Append(@, c)]
-             /\ UNCHANGED <<pc, chain, tail, k, prior, lvl, tb, map, j, res, meta, scans, out>>
+             /\ UNCHANGED <<pc, chain, pre, tail, k, prior, lvl, tb, map, j, res, meta, scans, out, ridx, fstack, names, evs>>
+(* prelude items are chosen before the nest of the function (one order of construction per program) *)
+AddPre(kd) == /\ pc = "build" /\ nest[N] = <<>> /\ Len(pre[N]) < MaxPre
+              /\ pre' = [pre EXCEPT ![N] = Append(@, kd)]
+              /\ UNCHANGED <<pc, chain, nest, tail, k, prior, lvl, tb, map, j, res, meta, scans, out, ridx, fstack, names, evs>>
 AddLink(kd) == /\ pc = "build" /\ N < MaxChain
                /\ Len(nest[N]) <= MaxNestCaller /\ \A q \in 1..Len(nest[N]) : nest[N][q] \in CallerCtxs
-               /\ chain' = Append(chain, kd) /\ nest' = Append(nest, <<>>)
-               /\ UNCHANGED <<pc, tail, k, prior, lvl, tb, map, j, res, meta, scans, out>>
+               /\ chain' = Append(chain, kd) /\ nest' = Append(nest, <<>>) /\ pre' = Append(pre, <<>>)
+               /\ UNCHANGED <<pc, tail, k, prior, lvl, tb, map, j, res, meta, scans, out, ridx, fstack, names, evs>>
 Seal(t, kk, pr) == /\ pc = "build" /\ N >= MinChain
                    /\ Len(nest[N]) >= MinNestInner /\ Len(nest[N]) <= MaxNestInner
                    /\ \A q \in 1..Len(nest[N]) : nest[N][q] \in InnerCtxs
                    \* the history bit only where the statement's line can be a compound header executing unconverted
-                   /\ pr => (t = "hdr" /\ kk = 7 /\ ~Eff(N))
-                   /\ tail' = t /\ k' = kk /\ prior' = pr /\ pc' = "raise"
-                   /\ UNCHANGED <<chain, nest, lvl, tb, map, j, res, meta, scans, out>>
+                   /\ pr => (t = "hdr" /\ kk = 7 /\ ~Eff(N) /\ ~Nested(N))
+                   /\ tail' = t /\ k' = kk /\ prior' = pr /\ pc' = "parse"
+                   /\ UNCHANGED <<chain, nest, pre, lvl, tb, map, j, res, meta, scans, out, ridx, fstack, names, evs>>
 
-(* ---- the statement fails; the exception unwinds to the innermost converted_call *)
-Raise == /\ pc = "raise" /\ lvl' = LastEff(1) /\ pc' = "catch"
-         /\ UNCHANGED <<chain, nest, tail, k, prior, tb, map, j, res, meta, scans, out>>
+(* ---- origin_info.OriginResolver.visit over every conversion unit ----------------- *)
+(*   entered_function = False                                                          *)
+(*   if isinstance(node, FunctionDef): entered_function = True; stack.append(name)     *)
+(*   _attach_origin_info(node)   -> function_name = stack[-1].name                     *)
+(*   generic_visit(node)                                                               *)
+(*   if entered_function: stack.pop()                                                  *)
+Top(s) == s[Len(s)]
+Parse == /\ pc = "parse" /\ evs' = Events /\ pc' = "resolve"        \* the parsed source of every unit, in textual order
+         /\ UNCHANGED <<chain, nest, pre, tail, k, prior, ridx, fstack, names, lvl, tb, map, j, res, meta, scans, out>>
+ResolveDef == /\ pc = "resolve" /\ ridx <= Len(evs) /\ evs[ridx].e = "def"
+              /\ fstack' = Append(fstack, evs[ridx].name)
+              /\ names' = names \cup {[file |-> evs[ridx].file, line |-> evs[ridx].line, fn |-> evs[ridx].name]}
+              /\ ridx' = ridx + 1
+              /\ UNCHANGED <<pc, chain, nest, pre, tail, k, prior, lvl, tb, map, j, res, meta, scans, out, evs>>
+ResolveStmt == /\ pc = "resolve" /\ ridx <= Len(evs) /\ evs[ridx].e = "stmt"
+               /\ names' = names \cup {[file |-> evs[ridx].file, line |-> evs[ridx].line, fn |-> Top(fstack)]}
+               /\ ridx' = ridx + 1
+               /\ UNCHANGED <<pc, chain, nest, pre, tail, k, prior, fstack, lvl, tb, map, j, res, meta, scans, out, evs>>
+(* a Lambda is no FunctionDef: no scope is entered; the expression stays part of its statement *)
+ResolveLambda == /\ pc = "resolve" /\ ridx <= Len(evs) /\ evs[ridx].e = "lambda"
+                 /\ ridx' = ridx + 1
+                 /\ UNCHANGED <<pc, chain, nest, pre, tail, k, prior, fstack, names, lvl, tb, map, j, res, meta, scans, out, evs>>
+ResolveEnd == /\ pc = "resolve" /\ ridx <= Len(evs) /\ evs[ridx].e = "end"
+              /\ fstack' = SubSeq(fstack, 1, Len(fstack) - 1)
+              /\ ridx' = ridx + 1
+              /\ UNCHANGED <<pc, chain, nest, pre, tail, k, prior, names, lvl, tb, map, j, res, meta, scans, out, evs>>
+ResolveDone == /\ pc = "resolve" /\ ridx > Len(evs) /\ pc' = "raise"
+               /\ UNCHANGED <<chain, nest, pre, tail, k, prior, ridx, fstack, names, lvl, tb, map, j, res, meta, scans, out, evs>>
+
+(* ---- the statement fails; the exception unwinds to the innermost converted_call that *)
+(* ---- catches: the one that called the module-level function of the unit             *)
+Raise == /\ pc = "raise" /\ lvl' = Unit(LastEff(1)) /\ pc' = "catch"
+         /\ UNCHANGED <<chain, nest, pre, tail, k, prior, tb, map, j, res, meta, scans, out, ridx, fstack, names, evs>>
 
 (* converted_call: except Exception as e: _attach_error_metadata(e, converted_f)   *)
 (*   cause_tb = traceback.extract_tb(sys.exc_info()[2])[1:]  - the [1:] drops the  *)
 (*   converted_call frame itself; source_map = f.ag_source_map                     *)
 Catch == /\ pc = "catch" /\ tb' = TbFrom(lvl) /\ map' = MapOf(lvl) /\ pc' = "startscan"
-         /\ UNCHANGED <<chain, nest, tail, k, prior, lvl, j, res, meta, scans, out>>
+         /\ UNCHANGED <<chain, nest, pre, tail, k, prior, lvl, j, res, meta, scans, out, ridx, fstack, names, evs>>
 
 (* ---- _stack_trace_inside_mapped_code(tb, source_map, converter_filename) ------- *)
 StartScan == /\ pc = "startscan" /\ res' = <<>> /\ j' = Len(tb) /\ pc' = "scan"      \* for .. in reversed(tb)
-             /\ UNCHANGED <<chain, nest, tail, k, prior, lvl, tb, map, meta, scans, out>>
+             /\ UNCHANGED <<chain, nest, pre, tail, k, prior, lvl, tb, map, meta, scans, out, ridx, fstack, names, evs>>
 IsMapped(fr) == \E e \in map : e.gfile = fr.file /\ e.gline = fr.line
 Translate(fr) == LET e == CHOOSE e \in map : e.gfile = fr.file /\ e.gline = fr.line IN
                  [file |-> e.file, fn |-> e.fn, line |-> e.line, conv |-> TRUE, allow |-> FALSE]
 Finished == IF Mode = "frames" THEN "done" ELSE "attach"
 ScanMapped == /\ pc = "scan" /\ j >= 1 /\ IsMapped(tb[j])             \* if loc in source_map: append; break
               /\ res' = Append(res, Translate(tb[j])) /\ pc' = Finished
-              /\ UNCHANGED <<chain, nest, tail, k, prior, lvl, tb, map, j, meta, scans, out>>
+              /\ UNCHANGED <<chain, nest, pre, tail, k, prior, lvl, tb, map, j, meta, scans, out, ridx, fstack, names, evs>>
 ScanConverter == /\ pc = "scan" /\ j >= 1 /\ ~IsMapped(tb[j]) /\ tb[j].file = "API"   \* filename == converter_filename
                  /\ res' = IF res = <<>> THEN res
                            ELSE [res EXCEPT ![Len(res)] = [@ EXCEPT !.conv = FALSE, !.allow = TRUE]]
                  /\ j' = j - 1                                                        \* continue
-                 /\ UNCHANGED <<pc, chain, nest, tail, k, prior, lvl, tb, map, meta, scans, out>>
+                 /\ UNCHANGED <<pc, chain, nest, pre, tail, k, prior, lvl, tb, map, meta, scans, out, ridx, fstack, names, evs>>
 ScanOther == /\ pc = "scan" /\ j >= 1 /\ ~IsMapped(tb[j]) /\ tb[j].file # "API"
              /\ res' = Append(res, [file |-> tb[j].file, fn |-> tb[j].fn, line |-> tb[j].line,
                                     conv |-> FALSE, allow |-> FALSE])
              /\ j' = j - 1
-             /\ UNCHANGED <<pc, chain, nest, tail, k, prior, lvl, tb, map, meta, scans, out>>
+             /\ UNCHANGED <<pc, chain, nest, pre, tail, k, prior, lvl, tb, map, meta, scans, out, ridx, fstack, names, evs>>
 ScanEnd == /\ pc = "scan" /\ j = 0 /\ pc' = Finished                                   \* loop exhausted
-           /\ UNCHANGED <<chain, nest, tail, k, prior, lvl, tb, map, j, res, meta, scans, out>>
+           /\ UNCHANGED <<chain, nest, pre, tail, k, prior, lvl, tb, map, j, res, meta, scans, out, ridx, fstack, names, evs>>
 
 (* ---- ErrorMetadataBase.__init__ ------------------------------------------------ *)
 Attach == /\ pc = "attach"
@@ -228,9 +334,9 @@ Attach == /\ pc = "attach"
                      THEN [set |-> TRUE, stack |-> res, name |-> KindOf, text |-> MsgOf(KindOf)]
                      ELSE [meta EXCEPT !.stack = meta.stack \o << res[Len(res)] >>]    \* daisy chain
           /\ scans' = Append(scans, [lvl |-> lvl, tb |-> tb, map |-> map, res |-> res])
-          /\ lvl' = lvl - 1
+          /\ lvl' = IF lvl > 1 THEN Unit(lvl - 1) ELSE 0
           /\ pc' = IF lvl > 1 THEN "catch" ELSE "wrapper"                              \* re-raise to the caller
-          /\ UNCHANGED <<chain, nest, tail, k, prior, tb, map, j, res, out>>
+          /\ UNCHANGED <<chain, nest, pre, tail, k, prior, tb, map, j, res, out, ridx, fstack, names, evs>>
 
 (* ---- convert().wrapper: raise e.ag_error_metadata.to_exception(e) --------------- *)
 CreateException(kd) ==
@@ -242,11 +348,13 @@ CreateException(kd) ==
 Wrapper == /\ pc = "wrapper"
            /\ out' = [type |-> CreateException(KindOf), name |-> meta.name, text |-> meta.text, stack |-> meta.stack]
            /\ pc' = "done"
-           /\ UNCHANGED <<chain, nest, tail, k, prior, lvl, tb, map, j, res, meta, scans>>
+           /\ UNCHANGED <<chain, nest, pre, tail, k, prior, lvl, tb, map, j, res, meta, scans, ridx, fstack, names, evs>>
 
 Next == \/ \E c \in InnerCtxs \cup CallerCtxs : AddCtx(c)
+        \/ \E kd \in Pres : AddPre(kd)
         \/ \E kd \in Links : AddLink(kd)
-        \/ \E t \in Tails, kk \in 1..7, pr \in BOOLEAN : Seal(t, kk, pr)
+        \/ \E t \in Tails, kk \in Ks, pr \in BOOLEAN : Seal(t, kk, pr)
+        \/ Parse \/ ResolveDef \/ ResolveStmt \/ ResolveLambda \/ ResolveEnd \/ ResolveDone
         \/ Raise \/ Catch \/ StartScan \/ ScanMapped \/ ScanConverter \/ ScanOther \/ ScanEnd
         \/ Attach \/ Wrapper
 Spec == Init /\ [][Next]_vars
@@ -267,8 +375,15 @@ InnermostNamed == Done => /\ UserStack # <<>>
                           /\ Triple(UserStack[1]) = Triple(Orig[N])      \* file, function, line of the failing statement
 FramesOfOriginal == Done => IsSubseq([p \in 1..Len(UserStack) |-> Triple(Reverse(UserStack)[p])],
                                      [p \in 1..N |-> Triple(Orig[p])])    \* same frames, same order
-OnePerConverted == Done => \A i \in 1..N : Eff(i) =>
-                     Cardinality({p \in 1..Len(out.stack) : out.stack[p].fn = FnNames[i] /\ IsUser(out.stack[p])}) = 1
+(* one entry per separately converted function on the call path: the frame of the unit (the function or a def nested *)
+(* in it) that the call path leaves the unit from                                                                    *)
+UnitNames(i) == {FnNames[q] : q \in {x \in i..N : Unit(x) = i}}
+OnePerConverted == Done => \A i \in 1..N : (Eff(i) /\ ~Nested(i)) =>
+                     Cardinality({p \in 1..Len(out.stack) : out.stack[p].fn \in UnitNames(i) /\ IsUser(out.stack[p])}) = 1
+(* the resolver leaves every function it entered; every statement got exactly one name *)
+ScopesBalanced == pc = "raise" =>
+                     /\ fstack = <<>>
+                     /\ \A a, b \in names : (a.file = b.file /\ a.line = b.line) => a.fn = b.fn
 (* the three-valued type rule *)
 Demanded(kd) == CASE InitOf(kd) = "exc" -> {"same"}
                   [] InitOf(kd) = "py"  -> {"staging"}          \* defines an initialiser of its own
@@ -288,7 +403,8 @@ Expect ==
   pc = "done" =>
     IF Mode = "frames"
     THEN PrintT(ToJson([mode |-> "frames", tb |-> tb, map |-> SetToList(map), res |-> res]))
-    ELSE PrintT(ToJson([mode |-> "scenario", chain |-> chain, nest |-> nest, tail |-> tail, k |-> k, prior |-> prior,
+    ELSE PrintT(ToJson([mode |-> "scenario", chain |-> chain, nest |-> nest, pre |-> pre, tail |-> tail, k |-> k, prior |-> prior,
+                        unit |-> [i \in 1..N |-> Unit(i)], names |-> SetToList(names),
                         kind |-> KindOf, msg |-> MsgOf(KindOf), init |-> InitOf(KindOf),
                         type |-> out.type, demanded |-> SetToList(Demanded(KindOf)),
                         orig |-> Orig, stack |-> out.stack,
